@@ -24,6 +24,7 @@ type c10Logger struct {
 	e      *slog.Entry
 	parent int // -1 = none
 	depthP int
+	spec   int // the format by the statement's three-state machine (0 json, 1 color, 2 logfmt), kept by this harness alone
 }
 
 var reKid = regexp.MustCompile(`k(\d+)["]?[=:]`)
@@ -234,7 +235,11 @@ func runC10(r *run) {
 			if parent >= 0 {
 				e = l.(*slog.Entry)
 			}
-			ls = append(ls, &c10Logger{l: l, e: e, parent: parent})
+			spec := 1 // a detached logger starts colored
+			if parent >= 0 {
+				spec = ls[parent].spec // a child starts with the receiver's format
+			}
+			ls = append(ls, &c10Logger{l: l, e: e, parent: parent, spec: spec})
 			index[e] = len(ls) - 1
 			return len(ls) - 1
 		}
@@ -323,24 +328,43 @@ func runC10(r *run) {
 		// a forced continuation: WithSkip(a) on p; SetSkip(b) on the returned child; WithSkip(b) on p
 		forcedStage, forcedParent, forcedChild, forcedN := 0, 0, 0, 0
 		// pinned prefix: two attribute-less siblings are given the same prepared Attrs, then each more
-		type pin struct{ kind, target, setting, shared int }
+		type pin struct{ kind, target, setting, shared, n, name int } // n: attribute count / skip count, name: index into names (-1: free)
 		var pins []pin
-		if g.chance(1, 2) {
-			base := len(ls)
-			pins = []pin{{15, 0, -1, 0}, {15, 0, -1, 0}, {0, base, 7, 1}, {0, base + 1, 7, 1}, {0, base, 5, 0}, {0, base + 1, 5, 0}}
-			if g.chance(1, 2) {
-				// the same through the With… builders: two children made from one prepared list, then each gets more
-				pins = []pin{{8, 0, 7, 1}, {8, 0, 7, 1}, {0, base, 5, 0}, {0, base + 1, 5, 0}}
-			}
+		base := len(ls)
+		switch h % 7 {
+		case 1:
+			// two attribute-less loggers are given the same prepared Attrs as it is, then each gets one more attribute
+			pins = []pin{{15, 0, -1, 0, -1, -1}, {15, 0, -1, 0, -1, -1}, {0, base, 7, 1, 0, -1}, {0, base + 1, 7, 1, 0, -1}, {0, base, 5, 0, 1, -1}, {0, base + 1, 5, 0, 1, -1}}
+		case 2:
+			// the same through the With… builders: two children made from one prepared list, then each gets more
+			pins = []pin{{8, 0, 7, 1, 0, -1}, {8, 0, 7, 1, 0, -1}, {0, base, 5, 0, 1, -1}, {0, base + 1, 5, 0, 1, -1}}
+		case 3:
+			// … and with the prepared list spread into the variadic forms
+			pins = []pin{{15, 0, -1, 0, -1, -1}, {15, 0, -1, 0, -1, -1}, {0, base, 7, 1, 1, -1}, {0, base + 1, 7, 1, 1, -1}, {0, base, 5, 0, 1, -1}, {0, base + 1, 5, 0, 1, -1}}
+		case 0:
+			// the default logger alone is moved to a level, then the package level is moved to the same one: detached
+			// loggers start at the package level
+			lv := []int{2, 5, 4}[(h/7)%3]
+			pins = []pin{{0, 0, 0, 0, lv, -1}, {18, 0, -1, 0, lv, -1}}
+		case 5:
+			// a logger in JSON format is told "no colours" (explicit false as the last value): logfmt; the same for a
+			// child built from a JSON parent
+			pins = []pin{{15, 0, -1, 0, -1, -1}, {0, base, 1, 0, 1, -1}, {0, base, 2, 0, []int{7, 8}[(h/7)%2], -1}, {0, base, 1, 0, 4, -1}, {8, base, 2, 0, []int{8, 7}[(h/7)%2], -1}}
+		case 4:
+			// a logger whose name holds a per-cent sign keeps one child per skip count like any other
+			pins = []pin{{11, 0, -1, 0, -1, 5 + (h/7)%3}, {16, base, -1, 0, 0, -1}, {16, base, -1, 0, 1, -1}, {16, base, -1, 0, 2, -1}, {16, base, -1, 0, 0, -1}}
 		}
-		pinSetting, pinShared := -1, -1
+		if nOps <= len(pins) {
+			nOps = len(pins) + 1
+		}
+		pinSetting, pinShared, pinN, pinName := -1, -1, -1, -1
 		for step := 0; step < nOps; step++ {
 			before, beforeBytes := snapshot()
 			target := g.intn(len(ls))
 			kind := g.intn(20)
-			pinSetting, pinShared = -1, -1
+			pinSetting, pinShared, pinN, pinName = -1, -1, -1, -1
 			if len(pins) > 0 {
-				target, kind, pinSetting, pinShared = pins[0].target, pins[0].kind, pins[0].setting, pins[0].shared
+				target, kind, pinSetting, pinShared, pinN, pinName = pins[0].target, pins[0].kind, pins[0].setting, pins[0].shared, pins[0].n, pins[0].name
 				pins = pins[1:]
 			}
 			if forcedStage == 1 {
@@ -351,6 +375,7 @@ func runC10(r *run) {
 			x := ls[target]
 			touched := map[int]bool{target: true}
 			var opDesc string
+			var modeUsed *modeLetter
 			settingTok := func() (string, func(l slog.Logger), func(l slog.Logger) *slog.Entry) {
 				sel := g.intn(9)
 				if pinSetting >= 0 {
@@ -359,12 +384,23 @@ func runC10(r *run) {
 				switch sel {
 				case 0:
 					lv := []int{0, 2, 3, 4, 5, 6, 8}[g.intn(7)]
+					if pinN >= 0 {
+						lv = pinN
+					}
 					return fmt.Sprintf("level %d", lv), func(l slog.Logger) { l.SetLevel(slog.Level(lv)) }, func(l slog.Logger) *slog.Entry { return l.WithLevel(slog.Level(lv)) }
 				case 1:
 					m := c11Alphabet[g.intn(5)]
+					if pinN >= 0 {
+						m = c11Alphabet[pinN]
+					}
+					modeUsed = &m
 					return "json " + m.tok, func(l slog.Logger) { l.SetJSONMode(m.bits...) }, func(l slog.Logger) *slog.Entry { return l.WithJSONMode(m.bits...) }
 				case 2:
 					m := c11Alphabet[5+g.intn(5)]
+					if pinN >= 0 {
+						m = c11Alphabet[pinN]
+					}
+					modeUsed = &m
 					return "color " + m.tok, func(l slog.Logger) { l.SetColorMode(m.bits...) }, func(l slog.Logger) *slog.Entry { return l.WithColorMode(m.bits...) }
 				case 3:
 					m := c11Alphabet[5+g.intn(5)]
@@ -374,6 +410,9 @@ func runC10(r *run) {
 					return "tf " + hxs(lay), func(l slog.Logger) { l.SetTimeFormat(lay) }, func(l slog.Logger) *slog.Entry { return l.WithTimeFormat(lay) }
 				case 5, 6:
 					n := 1 + g.intn(2)
+					if pinN >= 0 {
+						n = pinN
+					}
 					var toks []string
 					var attrs []slog.Attr
 					var args []any
@@ -393,7 +432,7 @@ func runC10(r *run) {
 						if pinShared >= 0 {
 							sh = shared[pinShared]
 						}
-						if g.chance(1, 2) {
+						if variadic := g.chance(1, 2); (variadic && pinN < 0) || pinN == 1 {
 							// the same prepared list spread into the variadic forms (the slice has spare capacity)
 							return fmt.Sprintf("attrs %d", sh.id), func(l slog.Logger) { l.SetAttrs(sh.as...) }, func(l slog.Logger) *slog.Entry { return l.WithAttrs(sh.as...) }
 						}
@@ -416,8 +455,12 @@ func runC10(r *run) {
 						n, forcedStage = forcedN, 2
 					}
 					tok, set = fmt.Sprintf("skip %d", n), func(l slog.Logger) { l.SetSkip(n) }
+					modeUsed = nil
 				}
 				set(x.l)
+				if modeUsed != nil {
+					x.spec = specFmt(x.spec, *modeUsed)
+				}
 				opDesc = fmt.Sprintf("set %d %s", target, tok)
 				r.emit("C10 "+opDesc, strconv.Itoa(target))
 			case kind < 11: // With…
@@ -427,6 +470,9 @@ func runC10(r *run) {
 				id, existed := index[ch]
 				if !existed {
 					id = add(ch, target)
+					if modeUsed != nil {
+						ls[id].spec = specFmt(ls[id].spec, *modeUsed)
+					}
 				}
 				touched[id] = true
 				opDesc = fmt.Sprintf("child %d %s %s ; %s", target, hxs(fmt.Sprintf("#%d", id)), hxs(ch.Name()), tok)
@@ -437,9 +483,13 @@ func runC10(r *run) {
 			case kind < 15: // New(name [, options])
 				kindName = "new-named"
 				name := names[g.intn(len(names))]
+				if pinName >= 0 {
+					name = names[pinName]
+				}
 				var opts []any
 				opts = append(opts, name)
 				var toks []string
+				var optLetters []modeLetter
 				for j := g.intn(3); j > 0; j-- {
 					switch g.intn(3) {
 					case 0:
@@ -448,6 +498,7 @@ func runC10(r *run) {
 						toks = append(toks, fmt.Sprintf("; level %d", lv))
 					case 1:
 						m := c11Alphabet[g.intn(10)]
+						optLetters = append(optLetters, m)
 						if m.json {
 							opts = append(opts, slog.WithJSONMode(m.bits...))
 							toks = append(toks, "; json "+m.tok)
@@ -465,6 +516,9 @@ func runC10(r *run) {
 				id, existed := index[ch]
 				if !existed {
 					id = add(ch, target)
+					for _, m := range optLetters { // the options of New apply in the order given
+						ls[id].spec = specFmt(ls[id].spec, m)
+					}
 				} else {
 					kindName = "new-existing"
 				}
@@ -487,6 +541,9 @@ func runC10(r *run) {
 			case kind < 18: // WithSkip
 				kindName = "withskip"
 				n := g.intn(3)
+				if pinN >= 0 {
+					n = pinN
+				}
 				if forcedStage == 2 {
 					n, forcedStage = forcedN, 0
 				}
@@ -496,7 +553,7 @@ func runC10(r *run) {
 					id = add(ch, target)
 				}
 				touched[id] = true
-				if forcedStage == 0 && g.chance(1, 2) {
+				if forcedStage == 0 && g.chance(1, 2) && len(pins) == 0 {
 					forcedStage, forcedParent, forcedChild, forcedN = 1, target, id, (n+1)%3
 				}
 				if want, ok := skipChild[[2]int{target, n}]; ok && want != id {
@@ -519,8 +576,11 @@ func runC10(r *run) {
 			default: // package-level New
 				kindName = "new-detached"
 				name := fmt.Sprintf("det%d", step)
-				if g.chance(1, 3) {
+				if g.chance(1, 3) || pinN >= 0 {
 					pkgLevel = []int{3, 4, 2}[g.intn(3)]
+					if pinN >= 0 {
+						pkgLevel = pinN
+					}
 					slog.SetLevel(slog.Level(pkgLevel)) // moves the package default level and the default logger
 					touched[0] = true
 					r.emit(fmt.Sprintf("C10 set 0 level %d", pkgLevel), "0")
@@ -551,6 +611,15 @@ func runC10(r *run) {
 			after, afterBytes := snapshot()
 			for i := range ls {
 				r.emit(fmt.Sprintf("C10 node %d", i), after[i])
+			}
+			// every logger's getters agree with the format the statement's three-state machine gives for its own history
+			for i, x := range ls {
+				if x.l.JSONMode() != (x.spec == 0) || x.l.ColorMode() != (x.spec == 1) {
+					r.violate(violation{What: "a logger's format is not what its own Set…/With…/New-option history gives by the three-state rule",
+						Input:    map[string]any{"history": h, "step": step, "op": opDesc, "logger": i},
+						Expected: fmtNames[x.spec], Actual: fmt.Sprintf("JSONMode=%v ColorMode=%v", x.l.JSONMode(), x.l.ColorMode())})
+					x.spec = map[bool]int{true: 0, false: map[bool]int{true: 1, false: 2}[x.l.ColorMode()]}[x.l.JSONMode()] // report once
+				}
 			}
 			// isolation: nothing but the touched loggers moved
 			for i := range before {
